@@ -70,7 +70,8 @@ def bounded(tier, seed):
                 "attribute and extras values, namespace maps that include the parent's prefixes, some re-declared): metapype_io from_json(to_json(t)) "
                 "field by field incl. ids, parent links and registry, identical re-serialisation with several indents; the legacy mp_io codec on the "
                 "fields it carries; a legacy document upgraded by to_20210209 (extracted from utils/convert.py) loads as the same tree with empty "
-                "namespace data; tests/data/eml.xml through all three")
+                "namespace data; ten kinds of normalisation-/folding-/stripping-/escape-sensitive text (decomposed, compatibility, special-casing, invisible and "
+                "separator characters, escape and JSON-literal look-alikes) in each of eleven text fields, one at a time; tests/data/eml.xml through all three")
     b.rule = "a case is (shape, palette variant, codec); non-trivial = more than one node or a non-default field"
     texts = [None, "", "plain", "ünï©ödé ✓", "quote\" back\\slash /  ", "\U0001F600 astral", "tab\tnl\n", " lead/trail "]
     rnd = random.Random(seed)
@@ -152,6 +153,55 @@ def bounded(tier, seed):
                 if not ok:
                     b.failures.append(Failure("json:upgrade", "a legacy document upgraded by to_20210209 does not load as the same tree with empty namespace data",
                                               {"tree": nat.describe(t)}, ""))
+    # text that a normalising, folding, stripping or re-encoding step would change, in every text-carrying field, one at a time (seeded/C06d:
+    # ensure_ascii=False on the way out + NFC normalisation of the document on the way in only shows on decomposed characters)
+    sensitive = ["Cafe\u0301 A\u030a", "\ufb01 \uff46\uff55\uff4c\uff4c \u2460 \u00bd", "MiXeD \u0130\u0131 \u00df", "\u00a0nbsp\u2028ls\u2029ps\u200bzw\ufeff",
+                 "cr\r\nlf\x0b\x0c\x1f\x7f", "\\u00e9 &amp; %41 \\n", "\u05d0\u202elt\u0157\u0301", "1e3", "true", "null"]
+    fields = ["name", "content", "tail", "prefix", "attr_key", "attr_value", "extras_key", "extras_value", "ns_prefix", "ns_uri", "id"]
+    for s, f in itertools.product(sensitive, fields):
+        Node.store.clear()
+        root = Node("dataset", id="r" if f != "id" else s + "0")
+        kid = Node(s if f == "name" else "a", id=s if f == "id" else "k")
+        kid.content = s if f == "content" else "plain"
+        kid.tail = s if f == "tail" else None
+        pre = s if f in ("prefix", "ns_prefix") else "p"
+        root.nsmap = {pre: s if f == "ns_uri" else "http://u/p"}
+        kid.nsmap = dict(root.nsmap)
+        kid.prefix = pre if f == "prefix" else None
+        kid.attributes = {s if f == "attr_key" else "x": s if f == "attr_value" else "v"}
+        kid.extras = {s if f == "extras_key" else "xml:lang": s if f == "extras_value" else "en"}
+        root.add_child(kid)
+        last = Node("b", id="z", content=s + s)
+        root.add_child(last)
+        snap = full_snapshot(root)
+        b.note(("sensitive", s, f), nontrivial=True, sample={"text": s, "field": f, "codec": "metapype_io"})
+        try:
+            js = metapype_io.to_json(root)
+            Node.store.clear()
+            t2 = metapype_io.from_json(js)
+            bad = None
+            if full_snapshot(t2) != snap:
+                bad = "the reloaded tree differs from the original"
+            elif not parents_ok(t2):
+                bad = "parent links of the reloaded tree are wrong"
+            elif metapype_io.to_json(t2) != js:
+                bad = "re-serialising the reloaded tree gives a different JSON text"
+        except Exception as ex:  # noqa
+            bad = f"the JSON codec raised {type(ex).__name__}: {ex}"
+        if bad:
+            b.failures.append(Failure("json:roundtrip", bad + f" (text {s!r} in field {f})", {"tree": nat.describe(root), "text": s, "field": f}, bad))
+        if f in ("name", "content", "attr_key", "attr_value", "id"):
+            b.note(("sensitive-legacy", s, f), nontrivial=True)
+            try:
+                lsnap = legacy_snapshot(root)
+                ljs = mp_io.to_json(root)
+                Node.store.clear()
+                t3 = mp_io.from_json(json.loads(ljs))
+                lbad = legacy_snapshot(t3) != lsnap or not parents_ok(t3) or mp_io.to_json(t3) != ljs
+            except Exception as ex:  # noqa
+                lbad = True
+            if lbad:
+                b.failures.append(Failure("json:legacy", f"the legacy codec does not reproduce text {s!r} in field {f}", {"tree": nat.describe(root), "text": s, "field": f}, ""))
     xml_path = os.path.join(common.REPO, "tests/data/eml.xml")
     if os.path.exists(xml_path):
         Node.store.clear()
